@@ -21,6 +21,9 @@ class SList(list):
             return list.__getitem__(self, c)
         return list.__getitem__(self, i)
 
+    def copy(self):
+        return type(self)(list.__iter__(self)) if type(self) is SList else SList(list.__iter__(self))
+
     def __contains__(self, item):
         for x in list.__iter__(self):
             if x is item:
